@@ -25,6 +25,9 @@ where
     out.push(format!("cm3 {:?}", a.central_moment(3).map(|x| x.to_bits()).ok()));
     out.push(format!("ent {:?}", b.entropy().map(|x| x.to_bits()).ok()));
     out.push(format!("kl {:?}", b.kl_divergence(b).map(|x| x.to_bits()).ok()));
+    out.push(format!("cross {:?}", b.cross_entropy(&a.mapv(|x| x.abs() + 0.5)).map(|x| x.to_bits()).ok()));
+    out.push(format!("klab {:?}", b.kl_divergence(&a.mapv(|x| x.abs() + 0.5)).map(|x| x.to_bits()).ok()));
+    out.push(format!("l1 {:?}", a.l1_dist(b).map(|x| x.to_bits()).ok()));
     out.push(format!("sql2 {:?}", a.sq_l2_dist(b).map(|x| x.to_bits()).ok()));
     out.push(format!("linf {:?}", a.linf_dist(b).map(|x| x.to_bits()).ok()));
     out.push(format!("cnt {:?}", a.count_eq(b).ok()));
